@@ -17,8 +17,11 @@ META = {
             "chain-DB invariant for any depth.  Checked on the real code on every run, independently of the model: final best/state/"
             "balances equal to a reference node that only saw the winning branch; best height >= every fully stored, fully valid branch "
             "forking at or above the LIB (ties keep the incumbent, equal/shorter/invalid/below-LIB branches never displace); MemPoolPut "
-            "messages = txs(old branch) minus txs(new branch).  best_is_longest_available and returned_txs are not proved in Coq (partial); "
-            "the former is false of the code for an orphan chain with an invalid tail (known finding).",
+            "messages = txs(old branch) minus txs(new branch).  Also proved in Coq (Fork.v, Trace.v): gather finds exactly an available branch and the "
+            "reorganisation towards it succeeds (best_is_longest_available in step form, at reorg level and for an in-order arrival), "
+            "no_displace_equal_or_shorter, below_lib_never_displaces, returned_txs (MemPoolPut events = confirmed before and not after); "
+            "best_is_longest_available as a global invariant is refuted in Coq with the witness of the known finding: "
+            "it is false of the code for an orphan chain with an invalid tail.",
     "note": "Trusted: Coq kernel/vm_compute; engine, reference node and Python predicates; LIB supplied by a consensus stub as a monotone "
             "stream; apply/spent abstraction of execution.",
     "technique": "Coq invariant proof + vm_compute correspondence + differential reference node on real chain.ChainService",
